@@ -239,6 +239,11 @@ func (d *PushDispatcher) runRoute(
 		for i, env := range resp.Items {
 			select {
 			case <-d.stopCh:
+				// Results of deliveries already made must reach the store before
+				// stopping; otherwise a 2xx stays leased and is sent again.
+				if len(actions) > 0 {
+					d.applyLeaseActions(logger, actions)
+				}
 				d.requeueLeases(logger, resp.Items[i:], 0, "dispatcher_stop_requeue_failed")
 				return
 			default:
